@@ -171,6 +171,11 @@ func catalogue() []reply {
 		{"fs-remove", agent.COMMAND_FS, wr().I32(agent.DEMON_COMMAND_FS_REMOVE).I32(0).WStr(`C:\t\x`).B, true},
 		{"fs-mkdir", agent.COMMAND_FS, wr().I32(agent.DEMON_COMMAND_FS_MKDIR).WStr(`C:\t\d`).B, true},
 		{"fs-pwd", agent.COMMAND_FS, wr().I32(agent.DEMON_COMMAND_FS_GET_PWD).WStr(`C:\t`).B, true},
+		// a download ends with its close package - whether or not the open was accepted
+		// (refused: same file already being fetched, a name that leaves the loot folder) and
+		// whether or not any other download is running
+		{"fs-download-close-finished", agent.COMMAND_FS, wr().I32(agent.DEMON_COMMAND_FS_DOWNLOAD).I32(2).I32(0x5151).I32(0).B, true},
+		{"fs-download-close-removed", agent.COMMAND_FS, wr().I32(agent.DEMON_COMMAND_FS_DOWNLOAD).I32(2).I32(0x5152).I32(1).B, true},
 		{"proc-list", agent.COMMAND_PROC_LIST, fin(kProcList), true},
 		{"checkin", agent.COMMAND_CHECKIN, fin(kCheckin), true},
 		{"exit", agent.COMMAND_EXIT, fin(kExit), true},
